@@ -9,6 +9,34 @@
 static struct hwloc_topology topo;
 static struct hwloc_internal_cpukind_s *kinds0;
 static unsigned char old_union;
+/* info pairs come from a pool of strings with pairwise distinct contents (so that equal content <=> same pool string) */
+#define MAXINFO 2
+static char pool_n[3][2] = { "a", "b", "c" }, pool_v[2][2] = { "1", "2" };
+static struct hwloc_infos_s old_infos[MAXKINDS]; static struct hwloc_info_s old_pairs[MAXKINDS][MAXINFO];
+static unsigned char old_bits[MAXKINDS]; static hwloc_bitmap_t old_set[MAXKINDS]; static int ni_used;
+#ifdef CK_NO_INFOS
+#define CK_INFOS 0
+#else
+#define CK_INFOS 1
+#endif
+static void mk_infos(struct hwloc_infos_s *infos, int nodup)
+{
+  /* <= 2 pairs: the first is ("a", "1"|"2"), the second ("a"|"b", "1"|"2") -- every duplicate / same-name / different-name
+   * relation between two pairs occurs; the pointers are two-way choices so that the string compares stay cheap */
+  unsigned c = nondet_unsigned();
+  infos->count = 0; infos->array = 0; infos->allocated = 0;
+  if (!CK_INFOS) return;
+  __CPROVER_assume(c <= MAXINFO);
+  if (c >= 1) hwloc__add_info(infos, pool_n[0], nondet_bool() ? pool_v[0] : pool_v[1]);
+  if (c >= 2) hwloc__add_info(infos, nondet_bool() ? pool_n[0] : pool_n[1], nondet_bool() ? pool_v[0] : pool_v[1]);
+  if (nodup && c == 2) __CPROVER_assume(infos->array[0].name != infos->array[1].name || infos->array[0].value != infos->array[1].value);   /* invariant: no exact duplicates */
+}
+static int has_pair(const struct hwloc_info_s *arr, unsigned n, const char *name, const char *value)
+{
+  unsigned e; int r = 0;
+  for (e = 0; e < INFOCAP; e++) if (e < n && arr[e].name == name && arr[e].value == value) r = 1;
+  return r;
+}
 
 #ifndef FIXED_NR
 #define FIXED_NR nondet_unsigned()
@@ -32,8 +60,21 @@ static void setup_kinds(unsigned alloc)
       old_union |= s->bits;
       kinds0[i].cpuset = s; kinds0[i].infos.count = 0; kinds0[i].infos.array = 0; kinds0[i].infos.allocated = 0;
       kinds0[i].efficiency = nondet_int(); kinds0[i].forced_efficiency = nondet_int(); kinds0[i].ranking_value = 0;
+      mk_infos(&kinds0[i].infos, 1);
+      old_infos[i] = kinds0[i].infos; old_bits[i] = s->bits; old_set[i] = s;
+      for (unsigned e = 0; e < MAXINFO; e++) if (e < kinds0[i].infos.count) old_pairs[i][e] = kinds0[i].infos.array[e];
     }
   }
+  /* the slots beyond nr_cpukinds are zeroed: register() establishes this (realloc + memset) and relies on it when it
+   * appends infos to a fresh slot -- part of the representation invariant of the kinds array */
+  for (i = 0; i < REG_ALLOC; i++) if (i >= n && i < alloc) { kinds0[i].cpuset = 0; kinds0[i].efficiency = 0; kinds0[i].forced_efficiency = 0; kinds0[i].ranking_value = 0; kinds0[i].infos.array = 0; kinds0[i].infos.count = 0; kinds0[i].infos.allocated = 0; }
+}
+/* every slot beyond nr_cpukinds is clean (no stale infos) */
+static void check_clean_slots(void)
+{
+  unsigned k = nondet_unsigned();
+  if (k >= topo.nr_cpukinds && k < topo.nr_cpukinds_allocated)
+    __CPROVER_assert(topo.cpukinds[k].infos.count == 0 && topo.cpukinds[k].infos.array == 0, "representation invariant: unused slots of the kinds array carry no (stale) infos");
 }
 static void check_partition(unsigned char expect_union)
 {
@@ -51,17 +92,41 @@ static void check_partition(unsigned char expect_union)
   __CPROVER_assert(u == expect_union, "the union of the kinds is the union of everything registered");
 }
 
+/* info accumulation: a kind carries exactly the pairs of the old kind it was split from plus, when its PUs are covered by
+ * the new registration, the pairs given with it -- without exact duplicates */
+static void check_infos(unsigned char newbits, const struct hwloc_infos_s *ni, unsigned oldnr)
+{
+  unsigned i = nondet_unsigned(), j, e = nondet_unsigned(), e2 = nondet_unsigned(), src = MAXKINDS; unsigned char B; int covered;
+  const struct hwloc_infos_s *ki;
+  if (!CK_INFOS || i >= topo.nr_cpukinds) return;
+  B = topo.cpukinds[i].cpuset->bits; ki = &topo.cpukinds[i].infos; covered = (B & ~newbits) == 0;
+  for (j = 0; j < MAXKINDS; j++) if (j < oldnr && (B & ~old_bits[j]) == 0) src = j;
+  __CPROVER_assert(ki->count <= INFOCAP, "infos: count within capacity");
+  if (src < MAXKINDS && e < old_infos[src].count)
+    __CPROVER_assert(has_pair(ki->array, ki->count, old_pairs[src][e].name, old_pairs[src][e].value), "infos: a kind keeps every pair of the kind it comes from");
+  if (covered && ni_used && e < ni->count)
+    __CPROVER_assert(has_pair(ki->array, ki->count, ni->array[e].name, ni->array[e].value), "infos: a kind covered by the new registration gets every pair given with it");
+  if (e < ki->count) {
+    int from_old = src < MAXKINDS && has_pair(old_pairs[src], old_infos[src].count, ki->array[e].name, ki->array[e].value);
+    int from_new = covered && ni_used && has_pair(ni->array, ni->count, ki->array[e].name, ki->array[e].value);
+    __CPROVER_assert(from_old || from_new, "infos: every pair of a kind comes from its old kind or from a registration that covers it");
+    if (e2 < ki->count && e2 != e) __CPROVER_assert(ki->array[e].name != ki->array[e2].name || ki->array[e].value != ki->array[e2].value, "infos: no exact duplicates");
+  }
+}
+
 void hp_hwloc_internal_cpukinds_register(void)
 {
   hwloc_bitmap_t cs; unsigned char newbits; int eff = nondet_int(), r; unsigned long flags = nondet_ulong(); unsigned alloc = nondet_unsigned();
-  unsigned oldnr;
+  unsigned oldnr; struct hwloc_infos_s newinfos;
   alloc = REG_ALLOC;
   setup_kinds(alloc);
   __CPROVER_assume(alloc >= topo.nr_cpukinds);
   oldnr = topo.nr_cpukinds;
   cs = hwloc_bitmap_alloc(); cs->bits = (unsigned char)nondet_char(); newbits = cs->bits;
   errno = 0;
-  r = hwloc_internal_cpukinds_register(&topo, cs, eff, (const struct hwloc_infos_s *)0, flags);
+  mk_infos(&newinfos, 0);
+  ni_used = nondet_bool();
+  r = hwloc_internal_cpukinds_register(&topo, cs, eff, ni_used ? &newinfos : (const struct hwloc_infos_s *)0, flags);
   if (newbits == 0 || (flags & ~(unsigned long)HWLOC_CPUKINDS_REGISTER_FLAG_OVERWRITE_FORCED_EFFICIENCY)) {
     __CPROVER_assert(r == -1 && errno == EINVAL, "empty cpuset or unknown flags: -1/EINVAL");
     __CPROVER_assert(topo.nr_cpukinds == oldnr, "rejected registration leaves the kinds alone");
@@ -69,6 +134,8 @@ void hp_hwloc_internal_cpukinds_register(void)
   } else if (r == 0) {
     check_partition((unsigned char)(old_union | newbits));
     __CPROVER_assert(topo.nr_cpukinds >= oldnr && topo.nr_cpukinds <= 2 * oldnr + 1, "at most 2N+1 kinds");
+    check_clean_slots();
+    check_infos(newbits, &newinfos, oldnr);
   } else {
     __CPROVER_assert(r == -1, "returns 0 or -1");
     check_partition(old_union);              /* allocation failure: nothing registered */
@@ -105,5 +172,28 @@ void hp_hwloc_cpukinds_register_rejects(void)
   __CPROVER_assert(r == -1 && errno == EINVAL, "non-zero flags, NULL or empty cpuset: -1/EINVAL");
   __CPROVER_assert(topo.nr_cpukinds == oldnr, "nothing registered");
   check_partition(old_union);
+  VERIF_CANARY();
+}
+
+/* restrict: every kind is intersected with the root cpuset, emptied kinds are removed (cpuset released), survivors keep
+ * their order, cpuset object and infos; the kinds array stays well formed (clean unused slots) so that a later
+ * register() works on it.  The ranking that follows a removal only writes efficiencies (body removed, see job note). */
+void hp_hwloc_internal_cpukinds_restrict(void)
+{
+  struct hwloc_bitmap_s rootset; unsigned i = nondet_unsigned(), k, ns = 0, ni = 0;
+  setup_kinds(REG_ALLOC);
+  rootset.live = 1; rootset.bits = (unsigned char)nondet_char(); verif_root.cpuset = &rootset;
+  for (k = 0; k < MAXKINDS; k++) if (k < topo.nr_cpukinds && (old_bits[k] & rootset.bits)) { if (k < i) ni++; ns++; }
+  { unsigned oldnr = topo.nr_cpukinds;
+  hwloc_internal_cpukinds_restrict(&topo);
+  __CPROVER_assert(topo.nr_cpukinds == ns, "restrict: exactly the kinds that keep a PU survive");
+  if (i < oldnr) {
+    if (old_bits[i] & rootset.bits) {
+      __CPROVER_assert(topo.cpukinds[ni].cpuset == old_set[i] && old_set[i]->live && old_set[i]->bits == (unsigned char)(old_bits[i] & rootset.bits), "restrict: a surviving kind keeps its place in the order and is intersected with the topology cpuset");
+      __CPROVER_assert(topo.cpukinds[ni].infos.array == old_infos[i].array && topo.cpukinds[ni].infos.count == old_infos[i].count, "restrict: a surviving kind keeps its infos");
+    } else __CPROVER_assert(!old_set[i]->live, "restrict: the cpuset of a removed kind is released");
+  } }
+  check_partition((unsigned char)(old_union & rootset.bits));
+  check_clean_slots();
   VERIF_CANARY();
 }
